@@ -466,6 +466,7 @@ Section Interp.
   (** [WithOptions._preset(key, options, mixed)] (after fix f469561): the key's value is fully
       determined by the pre-set options.  [None]: a lookup hit a scalar parent (TypeError). *)
   Definition preset_drops (force : bool) (p o mixed : dict) (k : key) : option bool :=
+    match k with [] => Some false | _ :: _ =>       (* a dotted key has at least one segment *)
     match lookup k (JObj p) with
     | TypeErr => None
     | Absent => Some false
@@ -482,6 +483,7 @@ Section Interp.
               end
             else Some false
         end
+    end
     end.
 
   Fixpoint filter_preset (force : bool) (p o mixed : dict) (ks : list key) : M (list key) :=
